@@ -268,6 +268,37 @@ class SBytes:
 _declen = z3.Function("declen", z3.BitVecSort(128), z3.BitVecSort(W))
 _opaque_len = z3.Function("atomlen", z3.IntSort(), z3.BitVecSort(W))
 CURRENT_WORLD = [None]
+_digits_cache = {}
+
+
+def _digits(term, width):
+    """Number of decimal digits of an unsigned term, as a BV64 expression (exact: a chain of comparisons)."""
+    # a zero-extended narrower value has the narrower value's digits
+    while z3.is_app_of(term, z3.Z3_OP_ZERO_EXT):
+        term = term.arg(0)
+        width = term.size()
+    w = CURRENT_WORLD[0]
+    if w is not None and z3.is_const(term):
+        rng = w.var_ranges.get(str(term))
+        if rng is not None and len(str(rng[0])) == len(str(rng[1])):
+            return len(str(rng[0]))
+    if width > 64:
+        # full-range 128-bit values (caller-supplied timestamps): the exact comparison chain is too heavy for
+        # the solver; their digit count is left abstract (bounded), which is sound for every use that does
+        # not pin the value -- and pinned values are printed as concrete digits by canon() on both sides
+        return _axiom_len(_declen(term if width == 128 else z3.ZeroExt(128 - width, term)), 1, 39)
+    k = (term.get_id(), width)
+    hit = _digits_cache.get(k)
+    if hit is not None and hit[0].eq(term):
+        return hit[1]
+    maxd = len(str((1 << width) - 1))
+    e = z3.BitVecVal(maxd, W)
+    for d in range(maxd - 1, 0, -1):
+        e = z3.If(z3.ULT(term, z3.BitVecVal(10 ** d, width)), z3.BitVecVal(d, W), e)
+    _digits_cache[k] = (term, e)
+    if len(_digits_cache) > 5000:
+        _digits_cache.clear()
+    return e
 
 
 def _axiom_len(term, lo, hi):
@@ -277,7 +308,7 @@ def _axiom_len(term, lo, hi):
         return term
     k = term.get_id()
     if k not in w.len_axioms:
-        w.len_axioms.add(k)
+        w.len_axioms[k] = term      # keep the term alive: z3 reuses AST ids of collected terms
         w.assume(z3.And(z3.UGE(term, z3.BitVecVal(lo, W)), z3.ULE(term, z3.BitVecVal(hi, W))))
     return term
 
@@ -307,7 +338,7 @@ def seg_len(s):
             term, width = s.payload
             if not is_sym(term):
                 return len(str(term))
-            return _axiom_len(_declen(z3.ZeroExt(128 - width, term) if width < 128 else term), 1, 39)
+            return _digits(term, width)
         return _axiom_len(_opaque_len(z3.IntVal(_atom_id(s))), 0, 1 << 32)
     raise TypeError(s)
 
@@ -667,6 +698,24 @@ def _content_eq_inner(c1, c2, ctx):
             if not conds:
                 return True
             return z3.And(*conds) if len(conds) > 1 else conds[0]
+    # aligned common prefix: a definite difference in it settles the question
+    for a, b in zip(c1.segs, c2.segs):
+        if seg_key(a) == seg_key(b):
+            continue
+        if isinstance(a, bytes) and isinstance(b, bytes):
+            n = min(len(a), len(b))
+            if a[:n] != b[:n]:
+                return False
+            break
+        if isinstance(a, Atom) and isinstance(b, Atom) and a.kind == b.kind and a.kind in ("hex", "b64") and (a.a, a.b) == (b.a, b.b):
+            e = digest_eq(a.payload, b.payload, ctx)
+            if e is False:
+                return False
+            if e is True:
+                continue
+            if ctx is not None and ctx.known(z3.Not(e)):
+                return False
+        break
     # a symbolic cut of concrete bytes against concrete bytes (single segments)
     for x, y in ((c1, c2), (c2, c1)):
         if len(x.segs) == 1 and isinstance(x.segs[0], CutSeg) and y.is_concrete():
